@@ -37,8 +37,16 @@ def _table(n, block=0):
     return _TABLES[key][:n]
 
 
+_BIG = 1 << 17
+
+
 def net(rows, col0, cols):
-    """rows x cols block: Sobol points 1..rows, coordinates col0..col0+cols-1 (block = coordinate // _D)."""
+    """rows x cols block: Sobol points 1..rows, coordinates col0..col0+cols-1 (block = coordinate // _D).
+    Draws of more than 2^17 rows (only reached inside run-away rejection loops) are answered from a private,
+    seeded generator instead of a 48-dimensional table of that length: still deterministic, bounded memory."""
+    if rows > _BIG:
+        g = torch.Generator().manual_seed(20260927 + 1000003 * col0 + rows)
+        return _ORIG.get("rand", torch.rand)(rows, cols, generator=g, dtype=torch.float64)   # the un-patched function
     out = torch.empty(rows, cols, dtype=torch.float64)
     for j in range(cols):
         block, dim = divmod(col0 + j, _D)
